@@ -757,7 +757,9 @@ def build_all(res, rng, thorough, do, groups, executed_kind):
     base_tree = do(new_case("tree", True, "noconfig-tree"), stream="base")
 
     # ---- S1 selection through every carrier
-    single_ids = (ids_all if thorough else fired) + ["B001", "B999", "assert_used"]
+    # ... and ids in another letter case: whatever a lower-case id means, it means the same through every carrier (seeded change C13-m18 upper-cased the ids of
+    # the -t / -s strings, which also carry the INI options, but not the lists of the YAML / TOML file)
+    single_ids = (ids_all if thorough else fired) + ["B001", "B999", "assert_used", "b101", "b001", "B10" + "1".lower(), fired[0].lower() if fired else "b102"]
     for tid in single_ids:
         for tests, skips in (([tid], []), ([], [tid])):
             ems = selection_emissions(tests, skips, rng, thorough)
